@@ -7,6 +7,7 @@ import Driver.Ops.Equity
 import Driver.Ops.Price
 import Driver.Ops.GitSel
 import Driver.Ops.Out
+import Driver.Ops.Scale
 /-! Line-protocol driver of the model: one JSON case per input line, one JSON answer per line.
     To add an op: write `Driver/Ops/<Name>.lean`, import it here, add one line to `opTable`
     (or to `outputTable` for a new output kind of op `run`). -/
@@ -18,7 +19,8 @@ def outputTable : List (String × Ops.OutputFn) := [
   ("balance", Ops.outBalance),
   ("register", Ops.outRegister),
   ("register_all", Ops.outRegisterAll),
-  ("equity", Ops.outEquity)
+  ("equity", Ops.outEquity),
+  ("baltxt", Ops.outBalanceTxt)
 ]
 
 /-- ops -/
@@ -33,7 +35,8 @@ def opTable : List (String × (Json → R Json)) := [
   ("parse", Ops.opParse),
   ("gitsel", Ops.opGitSel),
   ("out", Ops.opOut),
-  ("bufw", Ops.opBufw)
+  ("bufw", Ops.opBufw),
+  ("fmt", Ops.opFmt)
 ]
 
 def dispatch (j : Json) : R Json := do
